@@ -13,7 +13,7 @@ import hv
 from hv import Case
 
 SPEC = {
-    "lean_modules": ["Honeycomb.Props.C12", "Honeycomb.Props.C12b"],
+    "lean_modules": ["Honeycomb.Props.C12", "Honeycomb.Props.C12b", "Honeycomb.Props.C12c"],
     "gen": ["grid"],
     "required_theorems": [
         "C12_grid2_WF", "C12_grid2_beta2", "C12_grid2_darts", "C12_grid2_faces", "C12_grid2_corners",
@@ -28,7 +28,8 @@ SPEC = {
         "C12_hex3_vertices", "C12_hex3_corners", "C12_hex3_slots", "C12_hex3_volumes",
         "C12_grid2_counts", "C12_split2_counts", "C12_hex3_counts",
         "C12_build2_split_ok", "C12_build2_split_total_wf", "C12_build3_ok", "C12_build3_total",
-        "C12_ceil_count_rounding", "C12_ceil_count_exact",
+        "C12_ceil_count_of_bounds", "C12_ceil_count_rounding", "C12_ceil_count_rounding_all", "C12_ceil_count_exact",
+        "C12_ceil_count_f64", "C12_ceil_count_f64_exact", "C12_ceil_count_f64_multiple", "C12_ceil_count_f64_one_short",
     ],
     "trusted_base": [
         "Lean 4.33 kernel; axioms propext, Classical.choice, Quot.sound only",
@@ -52,12 +53,14 @@ SPEC = {
 }
 
 SPEC["not_proved"] = [
-    "floating point: all coordinate statements are over Rat; the tie uses dyadic values for which every f64 operation "
-    "of the builders is exact. For the form len_per_cell + lens the count is ceil(rnd(L/l)): C12_ceil_count_rounding "
-    "proves, for ANY monotone rounding rnd fixing the integers, that the count is ceil(L/l) or ceil(L/l)-1 and is exact "
-    "iff rnd(L/l) > ceil(L/l)-1 (always when L/l is representable: l a power of two, L an exact multiple, ...); that "
-    "IEEE-754 round-to-nearest division IS such a rnd (monotone, exact on integers < 2^53) is not proved in Lean "
-    "(no IEEE model installed, DESIGN.md par. 9/11) and stays covered by the oracle on dyadic inputs only",
+    "floating point: the coordinate statements are over Rat; the tie uses dyadic values for which every f64 operation "
+    "of the builders is exact. The count of the form len_per_cell + lens IS now proved for binary64 (Props/C12c.lean, on "
+    "the rounding model rnd 53 of Lemmas/Rounding.lean: round-to-nearest-even, unbounded exponent, tied to the hardware "
+    "by the C19 flop stream): C12_ceil_count_f64 - count = ceil(L/l) or ceil(L/l)-1, exact iff rnd(L/l) > ceil(L/l)-1, in "
+    "particular when L/l is representable or L = n*l exactly (C12_ceil_count_f64_exact/_multiple); "
+    "C12_ceil_count_f64_one_short exhibits floats (l = 1+2^-52, L = 3+2^-50) where the real builder builds 3 cells "
+    "while ceil(L/l) = 4 (reproduced on the implementation; not an exact multiple, so outside the property's clause). "
+    "Not modelled: overflow / subnormal quotients, NaN and infinite descriptor values",
     "3-D hex grid: number of edges and of faces yielded by iter_edges / iter_faces (the two-sided face_id walk); "
     "vertices, volumes, gluing, positions and well-formedness are proved, these two counts are compared on the box",
     "u32/usize wrap-around for grids with 2^32 darts or more is not modelled",
